@@ -14,8 +14,8 @@ RULE = ("histories over three keyspace names with create / write / delete / re-c
 
 
 class G12(Gen):
-    def __init__(self, seed, mode):
-        super().__init__(seed, mode=mode, nks=2,
+    def __init__(self, seed, mode, sealing=0):
+        super().__init__(seed, mode=mode, nks=2, sealing=sealing,
                          weights=dict(reopen=1.5, snap=0, it=0, tx=0, txop=0, gc=0, ks=0, delks=0, ingest=1, clear=0.5,
                                       major=0.5, rotate=1.5, step=1.5, put=8, delete=2, batch=2, get=2, scan=2, misc=0.5,
                                       reg=5))
@@ -25,7 +25,7 @@ class G12(Gen):
     def open_ks(self, i):
         h = self.nh
         self.nh += 1
-        self.emit("ks h%d %s" % (h, NAMES[i]))
+        self.emit("ks h%d %s%s" % (h, NAMES[i], " mt=400000000" if self.sealing else ""))
         self.bound[h] = i
         self.handles.append(h)
 
@@ -55,6 +55,10 @@ class G12(Gen):
         self.handles = []
         self.emit("names")
         self.emit("dump")
+        if self.sealing:
+            self.emit("journals")
+            self.emit("drain")       # recovery queues its flush tasks in hash-map order: go on only after they ran
+            self.emit("journals")
         for i in self.r.sample(range(3), self.r.randrange(1, 4)):
             self.open_ks(i)
 
@@ -62,8 +66,8 @@ class G12(Gen):
 def programs(seed, n, nops):
     out = []
     for i in range(n):
-        g = G12(seed * 100183 + i, ["plain", "plain", "sw", "occ"][i % 4])
-        g.emit("open " + g.mode)
+        g = G12(seed * 100183 + i, ["plain", "plain", "sw", "occ"][i % 4], sealing=(2 if i >= n - max(12, n // 12) else 0))
+        g.emit("open " + g.mode + (" jcomp=none" if g.sealing else ""))
         g.open_ks(0)
         g.open_ks(1)
         for _ in range(nops):
